@@ -526,10 +526,66 @@ func (e *SpecEnv) quant(n *SQuant) Val {
 			return Scalar{And(Term{mk(body.S, bound[0]), SBool}, Term{mk(rb, v2), SBool}), tBool}
 		}
 	}
+	if len(bound) > 1 && c.mode == ModeInt && n.Forall && c.goalMode == 0 {
+		// several index variables (e.g. "sorted": forall a, b): re-index each of them by its absolute row index, as above
+		allInt := true
+		for _, b := range binders {
+			if !strings.HasSuffix(b, " Int)") {
+				allInt = false
+			}
+		}
+		if allInt {
+			rb := body.S
+			ok := true
+			var nv, nbind []string
+			for _, v := range bound {
+				r2 := reindexQuant(rb, v)
+				if r2 == rb {
+					ok = false
+					break
+				}
+				v2 := c.sym("j")
+				rb = replaceSymbol(r2, v, v2)
+				nv = append(nv, v2)
+				nbind = append(nbind, "("+v2+" Int)")
+			}
+			if ok {
+				orig := fmt.Sprintf("(forall (%s) %s)", strings.Join(binders, " "), body.S)
+				if pats := c.choosePatterns(body.S, bound); pats != "" {
+					orig = fmt.Sprintf("(forall (%s) (! %s %s))", strings.Join(binders, " "), body.S, pats)
+				}
+				re := fmt.Sprintf("(forall (%s) %s)", strings.Join(nbind, " "), rb)
+				if pats := c.choosePatterns(rb, nv); pats != "" {
+					re = fmt.Sprintf("(forall (%s) (! %s %s))", strings.Join(nbind, " "), rb, pats)
+				}
+				return Scalar{And(Term{orig, SBool}, Term{re, SBool}), tBool}
+			}
+		}
+	}
 	if pats := c.choosePatterns(body.S, bound); pats != "" {
 		return Scalar{Term{fmt.Sprintf("(%s (%s) (! %s %s))", q, strings.Join(binders, " "), body.S, pats), SBool}, tBool}
 	}
 	return Scalar{Term{fmt.Sprintf("(%s (%s) %s)", q, strings.Join(binders, " "), body.S), SBool}, tBool}
+}
+
+// replaceSymbol replaces whole-token occurrences of symbol a by b in an s-expression string.
+func replaceSymbol(s, a, b string) string {
+	var out strings.Builder
+	for i := 0; i < len(s); {
+		if strings.HasPrefix(s[i:], a) {
+			j := i + len(a)
+			prevOK := i == 0 || s[i-1] == ' ' || s[i-1] == '('
+			nextOK := j >= len(s) || s[j] == ' ' || s[j] == ')'
+			if prevOK && nextOK {
+				out.WriteString(b)
+				i = j
+				continue
+			}
+		}
+		out.WriteByte(s[i])
+		i++
+	}
+	return out.String()
 }
 
 func (e *SpecEnv) binary(n *SBin) Val {
